@@ -301,4 +301,30 @@ let () =
   | [| _; "c10" |] -> iter_lines c10_line
   | [| _; "c03" |] -> c03_run ()
   | [| _; "lex" |] -> lex_run ()
+  | [| _; "c02" |] ->
+    (* stdin: class|name|sorts(,)|args(;)   stdout: D a=v[*] ... | M slot=v ...   ("*" = reached by the static model) *)
+    (try while true do
+      let line = input_line stdin in
+      if line <> "" then begin
+        match String.split_on_char '|' line with
+        | [cls; name; sorts; args] ->
+          let sorts = if sorts = "" then [] else String.split_on_char ',' sorts in
+          let args = if args = "-" || args = "" then [] else String.split_on_char ';' args in
+          (match G.c02_find (coq_string cls) (coq_string name) (List.map coq_string sorts) with
+           | None -> print_endline "NOFACTORY"
+           | Some f ->
+             let cargs = List.map coq_string args in
+             let d = match G.c02_expect f cargs with
+               | None -> "NODOC"
+               | Some rows -> String.concat " " (List.map (fun (a, (v, m)) -> str a ^ "=" ^ str v ^ (if m then "*" else "")) rows) in
+             let m = match G.c02_model_node f cargs with
+               | None -> "OPAQUE"
+               | Some rows -> String.concat " " (List.map (fun (a, v) -> str a ^ "=" ^ str v) rows) in
+             Printf.printf "D %s | M %s\n" d m)
+        | _ -> print_endline "BADLINE"
+      end
+    done with End_of_file -> ())
+  | [| _; "c02-list" |] ->
+    List.iter (fun f -> Printf.printf "%s|%s|%s|%b|%s\n" (str f.G.gf_class) (str f.G.gf_name)
+                  (String.concat "," (List.map str f.G.gf_sorts)) (G.c02_exempt f) (str f.G.gf_body)) G.c02_factories
   | _ -> prerr_endline "usage: gen_driver <mode>"; exit 2
